@@ -165,13 +165,13 @@ def _fixed():
 def generate(ctx):
     rng = ctx.rng
     cases = _corpus() + _fixed()
-    for _ in range(ctx.n(260, 2500)):
+    for _ in range(ctx.n(600, 6000)):
         cases.append(_instance(rng, 3, tiny=True))
-    for _ in range(ctx.n(700, 9000)):
+    for _ in range(ctx.n(1800, 24000)):
         cases.append(_instance(rng, ctx.n(7, 12)))
-    for _ in range(ctx.n(12, 300)):
+    for _ in range(ctx.n(40, 1500)):
         cases.append(_instance(rng, ctx.n(12, 25)))
-    for _ in range(ctx.n(30, 400)):
+    for _ in range(ctx.n(60, 800)):
         # larger values, small shapes (int32 range respected: 4*2000*2000 + 8000*6000 < 2^31)
         c = _instance(rng, 4, hi=2000)
         c["c"] = (np.asarray(c["c"]) * int(rng.randint(1, 200))).tolist()
@@ -242,12 +242,31 @@ def _run_models(ctx, cases):
 
 
 def model(ctx, cases, outs):
-    return _run_models(ctx, cases)
+    """Per case: the model's (dist, F) for every variant, plus the verdict of the verified checker on the MODEL's own
+    full flows (dual point found by the same untrusted Bellman-Ford)."""
+    ms = _run_models(ctx, cases)
+    args, where = [], []
+    for k, (c, m) in enumerate(zip(cases, ms)):
+        for (g, f), r in zip(_variants(c), m):
+            if f == 2 and isinstance(r, list) and len(r) == 2:
+                dual = find_dual(c["p"], c["q"], c["c"], r[1]) if _shape_ok(c, r[1]) else None
+                al, be, ga = dual if dual else ([0] * len(c["p"]), [0] * len(c["q"]), 0)
+                args.append([c["p"], c["q"], c["c"], penalty_value(c), r[0], r[1], al, be, ga]); where.append(k)
+    ok = [True] * len(cases)
+    for k, r in zip(where, ctx.run_model("entry_cert", args) if args else []):
+        if r != 1:
+            ok[k] = False
+    return [{"r": m, "cert": o} for m, o in zip(ms, ok)]
 
 
-def compare(case, out, m):
+def _shape_ok(c, F):
+    return isinstance(F, list) and len(F) == len(c["p"]) and all(isinstance(r, list) and len(r) == len(c["q"]) for r in F)
+
+
+def compare(case, out, mo):
     if _bad(out):
         return "implementation raised/crashed: %s" % (str(out)[:300],)
+    m = mo["r"]
     vs = _variants(case)
     if len(m) != len(vs) or len(out["v"]) != len(vs):
         return "variant count differs"
@@ -256,6 +275,8 @@ def compare(case, out, m):
             return "model out of fuel / failed on variant gd=%d flow=%d: %s" % (g, f, str(r)[:100])
         if r[0] != o[2]:
             return "distance differs on variant gd_metric=%d flow_type=%d: impl %d model %d" % (g, f, o[2], r[0])
+    if not mo["cert"]:
+        return "the MODEL's own full flow is rejected by emd_cert_ok (model defect)"
     return None
 
 
